@@ -518,13 +518,13 @@ func intPool() []*big.Int {
 	for _, k := range []int64{0, 1, 2, 9, 10, 99, 255, 256} {
 		add(big.NewInt(k))
 	}
-	for _, k := range []uint{7, 8, 15, 16, 31, 32, 53, 62, 63, 64, 65, 127, 128, 200, 1000} {
+	for _, k := range []uint{7, 8, 15, 16, 31, 32, 53, 62, 63, 64, 65, 127, 128, 200, 1000, 16384, 65536} {
 		p := new(big.Int).Lsh(big.NewInt(1), k)
 		for _, d := range []int64{-1, 0, 1} {
 			add(new(big.Int).Add(p, big.NewInt(d)))
 		}
 	}
-	for _, k := range []int64{9, 10, 18, 19, 20, 38, 100, 400} {
+	for _, k := range []int64{9, 10, 18, 19, 20, 38, 100, 400, 999, 1000, 4299, 4300, 4301, 9999, 10000, 19728} {
 		p := new(big.Int).Exp(big.NewInt(10), big.NewInt(k), nil)
 		for _, d := range []int64{-1, 0, 1} {
 			add(new(big.Int).Add(p, big.NewInt(d)))
